@@ -346,3 +346,97 @@ _obligations_c11 = obligations
 
 def obligations(ctx, cfg):
     return _obligations_c11(ctx, cfg) + [TopicActorHistory(ctx)]
+
+
+class SubscriberHistory(Obligation):
+    id = 'C11.f-history-subscriber-service'
+    tier = 'T3'
+    desc = ('SubscriberService::new(..) on real managers, then CreateSubscription S on T, Acknowledge S, the subscription is deleted (its actor unregisters it), '
+            'CreateSubscription S again, Acknowledge S: the second acknowledge is handed to the subscription registered under S now - not to the deleted one; '
+            'each create attaches the new subscription to T')
+    bounds = {'history': 'the 5 steps above'}
+    unroll = 8
+
+    def __init__(self, ctx):
+        install_tokens(ctx)
+
+    def body(self, ip, p):
+        ctx = ip.ctx
+        from framework import run_async
+        from props.service import proto, request, start_handler
+        from props.C10 import typed_reply
+        from models_core import ok
+        ctx.on_enqueue = typed_reply
+        tmgr = run_to_end(ip.call_fn(ctx.fn('TopicManager', 'new'), []))
+        tm_arc = ArcCell(Cell(tmgr, 'topic-manager'))
+        pstate = Cell(mk(ctx, 'PushSubscriptionsRegistryState', push_subscriptions=MapM([])), 'pstate')
+        reg = mk(ctx, 'PushSubscriptionsRegistry', state=ArcCell(Cell(LockM('push_registry.state', pstate))))
+        smgr = run_to_end(ip.call_fn(ctx.fn('SubscriptionManager', 'new'), [reg]))
+        sm_arc = ArcCell(Cell(smgr, 'subscription-manager'))
+        svc = run_to_end(ip.call_fn(ctx.fn('SubscriberService', 'new'), [tm_arc, sm_arc]))
+        proj = p.fresh('project')
+        tname = mk(ctx, 'TopicName', project_id=StrTok(proj), topic_id=StrTok(p.fresh('topic_id')))
+        sname = mk(ctx, 'SubscriptionName', project_id=StrTok(proj), subscription_id=StrTok(p.fresh('sub_id')))
+        ip.hooks[r'^parse_topic_name$'] = lambda ip_, callee, args: (ok(tname),)
+        ip.hooks[r'^parse_subscription_name$'] = lambda ip_, callee, args: (ok(sname),)
+        ct = run_to_end(ip.call_fn(ctx.fn('TopicManager', 'create_topic'), [Ref(tm_arc.deref_loc(ip)), tname]))
+        nfield, tfield = StrTok(p.fresh('name_field')), StrTok(p.fresh('topic_field'))
+
+        def call(method, req):
+            n0 = len(p.log)
+            fut = start_handler(ip, p, 'subscriber', method, svc, request(req))
+            res, _ = run_async(ip, p, fut, budget=0)
+            return res, [e for e in p.log[n0:] if e[0] == 'enqueue']
+
+        def create():
+            return call('create_subscription', proto(ctx, 'Subscription', name=nfield, topic=tfield, push_config=Enum('Option', 0, {}),
+                                                      ack_deadline_seconds=S(z3.IntVal(10), 'i32')))
+
+        def ack():
+            idt = p.fresh('ack_id_text')
+            from models_str import _tok_parse_ok
+            p.assume(_tok_parse_ok(idt))
+            return call('acknowledge', proto(ctx, 'AcknowledgeRequest', subscription=nfield, ack_ids=Seq([StrTok(idt)], 1)))
+
+        def registered_sender():
+            r = run_to_end(ip.call_fn(ctx.fn('SubscriptionManager', 'get_subscription'), [Ref(sm_arc.deref_loc(ip)), Ref(Loc(Cell(sname)))]))
+            if r.discr != 0:
+                return None
+            s_ = read_loc(r.payload[0][0].deref_loc(ip))
+            return fld(ctx, s_, 'Subscription', 'sender', 'subscriptions/subscription')
+        c1, e_c1 = create()
+        s1 = registered_sender()
+        a1, e_a1 = ack()
+        delegate = mk(ctx, 'SubscriptionManagerDelegate', state=fld(ctx, sm_arc.cell.v, 'SubscriptionManager', 'state'))
+        run_to_end(ip.call_fn(ctx.fn('SubscriptionManagerDelegate', 'delete'), [Ref(Loc(Cell(delegate))), Ref(Loc(Cell(sname)))]))
+        c2, e_c2 = create()
+        s2 = registered_sender()
+        a2, e_a2 = ack()
+        return {'ct': ct, 'c1': c1, 'c2': c2, 'a1': a1, 'a2': a2, 'e_c1': e_c1, 'e_c2': e_c2, 'e_a1': e_a1, 'e_a2': e_a2, 's1': s1, 's2': s2}
+
+    def post(self, ip, p, res):
+        ctx = ip.ctx
+        out = [Claim('the topic, both CreateSubscription calls and both Acknowledge calls succeed',
+                     res['ct'].discr == 0 and all(res[k].discr == 0 for k in ('c1', 'c2', 'a1', 'a2')))]
+        s1, s2 = res['s1'], res['s2']
+        out.append(Claim('the re-created subscription is a new subscription (its own mailbox)', s1 is not None and s2 is not None and s1.tok != s2.tok))
+        if s1 is None or s2 is None:
+            return out
+        ev = ip.src.enum_variants('SubscriptionRequest')
+        for k, s_, what in (('e_a1', s1, 'first'), ('e_a2', s2, 'second')):
+            acks = [e for e in res[k] if ev[e[3].discr][0] == 'AcknowledgeMessages'] if all(e[3].name == 'SubscriptionRequest' for e in res[k]) else []
+            out.append(Claim('%s acknowledge: exactly one request, to the subscription registered under the name at that moment' % what,
+                             z3.And(z3.BoolVal(len(acks) == 1), acks[0][2] == s_.tok) if acks else False))
+        tev = ip.src.enum_variants('TopicRequest')
+        for k, what in (('e_c1', 'first'), ('e_c2', 'second')):
+            att = [e for e in res[k] if e[3].name == 'TopicRequest' and tev[e[3].discr][0] == 'AttachSubscription']
+            out.append(Claim('%s create: the new subscription is handed to its topic exactly once' % what, len(att) == 1))
+        out.append(Cover('reached'))
+        return out
+
+
+_obligations_c11b = obligations
+
+
+def obligations(ctx, cfg):
+    return _obligations_c11b(ctx, cfg) + [SubscriberHistory(ctx)]
